@@ -2,7 +2,7 @@
 import gen_prog
 from progcheck import run_prog_check
 
-PROPS = ["Props/C15alg.v"]
+PROPS = ["Props/C15alg.v", "Props/C15edges.v"]
 RULE = ("C15: (1) random operation sequences on the real VectorClock (new/extend/increment/update/partial_cmp/get on four registers, including the underflow and overflow panics) compared with the model; "
         "(2) the clock of the current task after every operation of every generated program compared between runtime and model; "
         "(3) happens-before oracle on the crate's traces: for every direct edge (program order, spawn, join, unlock->lock, send->receive, atomic write->read/rmw) the later clock must dominate the earlier one.")
